@@ -1586,6 +1586,13 @@ impl<T: Transport + 'static> SyncEngine<T> {
             destination.display()
         );
 
+        // Two files given instead of two trees: they are compared with each other. (The scan of a
+        // file lists nothing, so nothing was compared and the run reported success whatever the
+        // two files held.)
+        if std::fs::metadata(source).is_ok_and(|m| m.is_file()) {
+            return self.verify_single_file(source, destination, start_time);
+        }
+
         // Start scan timing
         if let Some(ref monitor) = self.perf_monitor {
             monitor.lock().unwrap().start_scan();
@@ -1747,6 +1754,45 @@ impl<T: Transport + 'static> SyncEngine<T> {
     }
 
     /// Compare checksums of two files
+    /// `--verify-only` with a file as the source: the destination is the file to compare it with
+    fn verify_single_file(
+        &self,
+        source: &Path,
+        destination: &Path,
+        start_time: std::time::Instant,
+    ) -> Result<VerificationResult> {
+        let name = PathBuf::from(source.file_name().unwrap_or(source.as_os_str()));
+        let mut result = VerificationResult {
+            files_matched: 0,
+            files_mismatched: Vec::new(),
+            files_only_in_source: Vec::new(),
+            files_only_in_dest: Vec::new(),
+            errors: Vec::new(),
+            duration: Duration::ZERO,
+        };
+        let checksum_type = if self.checksum || self.verification_mode == ChecksumType::None {
+            ChecksumType::Fast
+        } else {
+            self.verification_mode
+        };
+        let verifier = IntegrityVerifier::new(checksum_type, false);
+        match std::fs::symlink_metadata(destination) {
+            Err(_) => result.files_only_in_source.push(name),
+            Ok(meta) if !meta.is_file() => result.files_mismatched.push(name),
+            Ok(_) => match self.compare_checksums(source, destination, &verifier) {
+                Ok(true) => result.files_matched = 1,
+                Ok(false) => result.files_mismatched.push(name),
+                Err(e) => result.errors.push(SyncError {
+                    path: name,
+                    error: e.to_string(),
+                    action: "verify".to_string(),
+                }),
+            },
+        }
+        result.duration = start_time.elapsed();
+        Ok(result)
+    }
+
     fn compare_checksums(
         &self,
         source_path: &Path,
